@@ -4,6 +4,7 @@
 package harness
 
 import (
+	"bufio"
 	"bytes"
 	"encoding/base64"
 	"encoding/json"
@@ -197,6 +198,7 @@ type ProxyEnv struct {
 	Cipher   aead.Cipher
 	Config   proxy.Configuration
 	Secret   []byte
+	Front    *httptest.Server
 	dir      string
 }
 
@@ -290,6 +292,9 @@ func NewProxyEnv(o ProxyOpts) (*ProxyEnv, error) {
 }
 
 func (e *ProxyEnv) Close() {
+	if e.Front != nil {
+		e.Front.Close()
+	}
 	if e.Auth != nil {
 		e.Auth.Server.Close()
 	}
@@ -412,3 +417,48 @@ var T0 = vtime.Epoch
 
 // At returns the whole-second-truncated instant d after the epoch (deadlines are truncated to seconds).
 func At(d time.Duration) time.Time { return vtime.Epoch.Add(d).Truncate(time.Second) }
+
+// ---- raw front door ---------------------------------------------------------------------------
+
+// StartFront puts the handler behind a real net/http server so that raw bytes can be sent to it.
+func (e *ProxyEnv) StartFront() {
+	if e.Front == nil {
+		e.Front = httptest.NewServer(e.Handler)
+	}
+}
+
+// DoRaw writes one raw HTTP/1.1 request (which must ask for the connection to be closed) to the
+// front server and parses the response.
+func (e *ProxyEnv) DoRaw(raw string) (*Response, error) {
+	e.StartFront()
+	for _, b := range e.Backends {
+		b.Reset()
+	}
+	e.Auth.Take()
+	conn, err := net.DialTimeout("tcp", strings.TrimPrefix(e.Front.URL, "http://"), 5*time.Second)
+	if err != nil {
+		return nil, err
+	}
+	defer conn.Close()
+	conn.SetDeadline(time.Now().Add(20 * time.Second))
+	if _, err := io.WriteString(conn, raw); err != nil {
+		return nil, err
+	}
+	res, err := http.ReadResponse(bufio.NewReader(conn), nil)
+	if err != nil {
+		return nil, err
+	}
+	body, _ := io.ReadAll(res.Body)
+	res.Body.Close()
+	resp := &Response{Status: res.StatusCode, Header: res.Header, Body: string(body), Location: res.Header.Get("Location"), Cookies: res.Cookies()}
+	names := make([]string, 0, len(e.Backends))
+	for n := range e.Backends {
+		names = append(names, n)
+	}
+	sort.Strings(names)
+	for _, n := range names {
+		resp.Hits = append(resp.Hits, e.Backends[n].Take()...)
+	}
+	resp.Calls = e.Auth.Take()
+	return resp, nil
+}
